@@ -1188,7 +1188,12 @@ func TestVerifC05Sanity(t *testing.T) {
 			if v := w.judge(rd, o, tr); len(v) > 0 {
 				t.Errorf("%s round %d: %v", r.name, i, v)
 			}
-			if got := (want{o.after["Ready"].Status, o.after["Synced"].Status}); got != r.want[i] {
+			// The property is one-directional ("True only if ..."): code that is MORE conservative than this tree
+			// (e.g. reports an invalid resource unready as well) still satisfies it. Only the positive controls
+			// (expected True/True) and any overstatement are harness-sanity failures.
+			conservative := func(got, exp string) bool { return got == exp || (exp == "True" && got == "False") || exp == "" }
+			if got := (want{o.after["Ready"].Status, o.after["Synced"].Status}); got != r.want[i] &&
+				(r.want[i] == want{"True", "True"} || !conservative(got.ready, r.want[i].ready) || !conservative(got.synced, r.want[i].synced)) {
 				t.Errorf("HARNESS SANITY %s round %d: stored Ready/Synced = %+v, expected %+v (conditions %v, err %v)", r.name, i, got, r.want[i], fmtConds(o.after), o.err)
 			}
 			if o.composeFailed != tr.failed {
